@@ -22,7 +22,7 @@ def main():
             w.hooks['hooks'] = [Str(None, sym=c.sym('hook%d' % i)) for i in range(nhooks)]
             sender = ADDR(Str(None, sym=c.sym('sender')))
             msg = it.mkv(EM + 'ExecuteMsg', 'CreateEpoch')
-            return run_entry(it, 'epoch_manager::contract::execute', mk_deps(), mk_env(it, now), mk_info(sender), msg)
+            return enter(it, 'epoch_manager', 'execute', mk_env(it, now), mk_info(sender), msg)
         paths = ck.explore(prog, body, 'mgr.create_epoch.hooks%d' % nhooks)
         eid, start, dur, now = [z3.Int(n) for n in ('id', 'start', 'duration', 'now')]
         nok = 0
